@@ -9,13 +9,13 @@ COMMON_NOTE = ("Trusted base: Lean 4.33.0 kernel, axioms of every C??_* theorem 
                "Theorems quantify over all models/sizes/periods; the tie to /repo is sampled on every run and bounded as stated in the evidence file. ")
 
 P = {
- "C01": ("R1: every entry of every array of the executable model `solve` is the maximum (IsMaxOver, unique) of utility + beta*E[V-hat] over the grid choices passing all filters and constraints, for both array layouts, by backward recursion over any number of periods (C01_entry_isMax_restricted/_unrestricted, C01_backward_recursion); tie: the compiled model is run against get_lcm_function(...,'solve') on generated dyadic specifications, comparison of exact rationals entry by entry, jit on and off",
+ "C01": ("R1: every entry of every array of the executable model `solve` is the maximum (IsMaxOver, unique) of utility + beta*E[V-hat] over the grid choices passing all filters and constraints, for both array layouts, by backward recursion over any number of periods (C01_entry_isMax_restricted/_unrestricted, C01_backward_recursion), and equals the plain-enumeration specification value `specV` of the grid state the entry belongs to - all declared choices in declaration order, no groups/axes/feasible-rank - under the only hypothesis that declared names are pairwise distinct (C01_entry_eq_spec_restricted/_unrestricted); tie: the compiled model is run against get_lcm_function(...,'solve') on generated dyadic specifications, comparison of exact rationals entry by entry, jit on and off",
          "Floating-point rounding is outside the model (removed by dyadic inputs: float arithmetic is exact there); 'independent of JIT' is a correspondence obligation (both settings run), not a theorem; the objective `uAndF` (utility + beta * sum of weights * interpolated next value) is part of the model definition.",
          "Lean 4 refinement proof (backward induction) + exact differential correspondence"),
- "C02": ("R2 per agent and period: the arg-max chain of `simulate` (data state-choice space, masked arg-max over continuous grids, dense arg-max, segment arg-max, re-indexing) returns a value that is the maximum of the agent's own objective over its admissible grid choices and, when finite, choices on the grids that are admissible and attain it - for any mix of restricted/unrestricted discrete choices and any continuous grids (C02_decision_is_feasible_maximiser); tie + oracle: every agent-period of implementation panels is checked against the specification-level enumeration `specAgent` (exact)",
+ "C02": ("R2 per agent and period: the arg-max chain of `simulate` (data state-choice space, masked arg-max over continuous grids, dense arg-max, segment arg-max, re-indexing) returns a value that is the maximum of the agent's own objective over its admissible grid choices and, when finite, choices on the grids that are admissible and attain it - for any mix of restricted/unrestricted discrete choices and any continuous grids (C02_decision_is_feasible_maximiser), and that value equals the plain-enumeration maximum `specAgent.best` over all declared choices in declaration order (C02_value_is_plain_enumeration_max: the oracle the harness uses is proved equal to the implementation-shaped model, not merely tested against it); tie + oracle: every agent-period of implementation panels is checked against `specAgent` (exact; near-tie and three-stochastic-state families included)",
          "Near-tie flips from rounding are excluded by dyadic inputs; agent-periods whose objective is undefined in the model are skipped and counted.",
          "Lean 4 proof of the arg-max chain + specification oracle on implementation panels"),
- "C03": ("law of motion of the executable `simulate`: period-0 states are the inputs, the state list of period t+1 is the re-keyed list of transition values computed from each agent's own period-t record, stochastic labels are drawn with the dependency indices in signature order (C03_*); tie: step-wise on implementation frames, the Lean model evaluates every transition by name at the implementation's own states and reported choices",
+ "C03": ("law of motion of the executable `simulate`: period-0 states are the inputs, the state list of period t+1 is the re-keyed list of transition values computed from each agent's own period-t record, stochastic labels are drawn with the dependency indices in signature order, each state is looked up under its own name after the `next_` prefix is stripped (C03_states_of_agent_succ, C03_lookup_own_value, C03_prefix_stripped, ...); tie: step-wise on implementation frames, the Lean model evaluates every transition by name at the implementation's own states and reported choices",
          "The sampler is a parameter of the model (every theorem holds for every draw function); positivity of the drawn label's probability is checked on the implementation for every draw.",
          "Lean 4 proof (loop unrolling) + step-wise differential correspondence"),
  "C04": ("PARTIAL. Proved: the PRNG key schedule of `simulate` as paths in the split tree is injective in (period, variable, agent), prefix-free, and never consumes a key that is split (the JAX contract for independent draws); the inverse-CDF sampler never returns a zero-probability label, returns a valid label and hits label k on an interval of length p_k. Tie: every stochastic draw of implementation frames is re-derived with the real jax.random.split / jax.random.choice along the model's key paths; same-seed and period-0 checks. The distributional clause itself rests on threefry uniformity (trusted) and is supported by chi-square tests (p < 1e-9 alarms), not proved",
@@ -24,35 +24,35 @@ P = {
  "C05": ("shape theorem for every period of `solve` (leading axis of feasible restricted-state combinations only when a variable is restricted, then unrestricted discrete states, then continuous states, grid lengths), declaration-order theorems for each group of the canonical variable order, entry theorem through R1 (C05_*); tie: shapes compared with the model's layout, and sampled entries re-valued by the specification-level enumeration at the state the layout contract assigns to the index",
          "In the supported class every filter involves a state, so 'some variable restricted' = 'some state restricted'.",
          "Lean 4 proof + layout-directed differential correspondence"),
- "C06": ("(b) is definitional in the model; (a) is proved by uniqueness of IsMaxOver from R1 and R2 under two explicit hypotheses (the agent's environment answers lookups like the grid state's; filters read restricted variables only) - C06_on_grid_value_partial / _unrestricted_partial; tie: simulated values of on-grid agents (all states of fully discrete models) are compared with the implementation's own value arrays through the model's layout, and 'solve_and_simulate' frames with solve->'simulate' frames",
-         "The two hypotheses of the (a) theorems are not discharged in Lean from name-distinctness / the ancestor definition (labelled partial); they are exercised on every compared agent.",
+ "C06": ("(b) is definitional in the model; (a) is proved at full strength by uniqueness of IsMaxOver from R1 and R2: if the variable names are pairwise distinct and the agent's state is, as a set of (name, value) pairs, a stored grid state, the simulated value equals the entry of the solved array (C06_on_grid_value, C06_on_grid_value_unrestricted; the environment identification is `env_on_grid`, 'filters read restricted variables only' is the frame lemma `filt_on_grid`; the `_partial` versions keep both as hypotheses); tie: simulated values of on-grid agents (all states of fully discrete models) are compared with the implementation's own value arrays through the model's layout, and 'solve_and_simulate' frames with solve->'simulate' frames",
+         "States without a feasible choice (value -inf) are included in the implementation-side comparison (both routes must report -inf).",
          "Lean 4 proof (R1 + R2 + uniqueness) + differential correspondence"),
  "C07": ("template: one entry per function, exactly the non-variable non-function non-period arguments, alphabetically sorted and duplicate-free, shock shapes in signature order (C07_function_params, C07_params_sorted, C07_shock_shape); routing: by-name evaluation reads params[f] only under f's own name, equal names in different functions do not interact, beta enters once per period (C07_routing, C07_noninterference, C07_lookup_by_function_name, C07_beta_once); tie: three-way template comparison and solve/simulate with colliding parameter names, swapped values and varied beta (exact)",
          "", "Lean 4 proof + exact differential correspondence"),
- "C08": ("the decision of an agent inside any batch equals its decision alone, tie rule included; two batches containing the same state give that agent the same decision; period 0 for any model (C08_decision_alone, C08_batch_irrelevant, C08_period0_any_model); metamorphic tie on the implementation: permutation, subset, single agent, duplication, reversed key order",
-         "Hypothesis: the agent has at least one filter-passing restricted choice (otherwise the implementation's num_segments shifts rows; outside the supported inputs). Whole-path independence for deterministic models follows from the per-period theorem and the law of motion; it is checked on the implementation for all periods.",
+ "C08": ("the decision of an agent inside any batch equals its decision alone, tie rule included; two batches containing the same state give that agent the same decision; period 0 for any model (C08_decision_alone, C08_batch_irrelevant, C08_period0_any_model), whole paths of deterministic models (C08_path_alone, C08_paths_batch_irrelevant); metamorphic tie on the implementation: permutation, subset, single agent, duplication, reversed key order",
+         "Hypothesis: the agent has at least one filter-passing restricted choice (otherwise the implementation's num_segments shifts rows; outside the supported inputs). Agents without any feasible choice (all options -inf) are included in the implementation-side metamorphic comparison.",
          "Lean 4 proof (closed form of the arg-max chain) + metamorphic differential testing"),
  "C09": ("PARTIAL. In the model generated functions are functions (history theorem trivial); proved is the logic part: results do not depend on the order in which argument names are collected/passed (set iteration order) nor on anything but the values stored under each function's name (C09_arg_order_irrelevant, C09_params_by_value). Hidden state of the implementation (JIT caches, module state, hash seeds, processes) is covered by differential call histories, rebuilds, deep comparison of model.functions/params and subprocess runs under different PYTHONHASHSEED only",
          "Runtime state is outside any executable model of the logic.", "Lean 4 proof of order-independence + differential call histories"),
- "C10": ("PARTIAL. Proved at specification level: the value depends only on the admissible set and the objective on it (order-free IsMaxOver), not on enumeration order, classification filter vs constraint, or always-true restrictions; by-name evaluation reads environments through lookups only (C10_*). Not proved: the simultaneous layout re-indexing under permuted declarations and consistent renaming. Tie: metamorphic pairs (permutation, renaming, true constraint, true filter, filter->constraint) solved by the implementation and matched state by state through the layouts",
+ "C10": ("PARTIAL. Proved at specification level: the value depends only on the admissible set and the objective on it (order-free IsMaxOver), not on enumeration order, classification filter vs constraint, or always-true restrictions; by-name evaluation reads environments through lookups only (C10_*). Also proved: by-name evaluation and every filter/constraint conjunction are invariant under permuting the declaration order of functions and of variables with distinct names (C10_function_order_irrelevant, C10_variable_order_irrelevant). Not proved: the simultaneous layout re-indexing of the stored arrays under permuted declarations, and consistent renaming. Tie: metamorphic pairs (permutation, renaming, true constraint, true filter, filter->constraint) solved by the implementation and matched state by state through the layouts",
          "Renaming and layout re-indexing are covered by the metamorphic correspondence only.", "Lean 4 proof (order-free specification) + metamorphic differential testing"),
- "C11": ("affine law step, geometric accumulation, beta = 0, stationarity step, degenerate transition rows, for the specification-level Bellman step and its linear ingredients (interpolation weights and transition rows sum to one) - C11_*; every array entry is such a step by R1; tie: metamorphic pairs of implementation runs (exact), thorough tier includes specifications far beyond what the model enumerates",
-         "The induction over periods is the iteration of C11_affine_step with C11_geometric; it is stated per step.", "Lean 4 proof of the DP laws + metamorphic differential testing"),
- "C12": ("PARTIAL. Decision logic of Model(...) and of function creation proved outright (accept iff no rule violated; which error at which stage) - C12_*; grid rules in C16. The converse ('every accepted specification runs') is false of the current code: K1-K7 in known_findings.json are replayed every run and reported as KNOWN-FINDING. Tie: malformed stream (1-3 combined violations) classified by stage and error kind against the model; accepted stream solved and simulated with parameters following the implementation's own template",
+ "C11": ("affine law step, geometric accumulation, beta = 0, stationarity step, degenerate transition rows, for the specification-level Bellman step and its linear ingredients (interpolation weights and transition rows sum to one) - C11_*; every array entry is such a step by R1; whole-horizon statements for the abstract finite-horizon recursion (C11_affine: V' = a V + b sum beta^k for every period and state, C11_beta_zero_all_periods, C11_stationary); tie: metamorphic pairs of implementation runs (exact), thorough tier includes specifications far beyond what the model enumerates",
+         "The whole-horizon theorems are stated for the abstract recursion `DP` (state space, feasible set, utility, transition kernel as parameters), of which the model's period step is an instance by R1.", "Lean 4 proof of the DP laws + metamorphic differential testing"),
+ "C12": ("PARTIAL. Decision logic of Model(...) and of function creation proved outright (accept iff no rule violated; which error at which stage) - C12_*; grid rules in C16. The converse ('every accepted specification runs') is false of the current code: K1-K7 and K9 in known_findings.json are replayed every run and reported as KNOWN-FINDING. Tie: malformed stream (every single rule on every base family, and 1-3 combined violations) classified by stage and error kind against the model; accepted stream solved and simulated with parameters following the implementation's own template",
          "Wrong types of n_periods / non-dict containers are not among the listed rules and not generated.", "Lean 4 proof of the validation decision logic + differential classification"),
  "C13": ("panel of the executable `simulate`: n_periods*n_agents rows, one record per agent and period, row t*n+i is agent i in period t, index recovered by div/mod, row content = that agent's decision (C13_*); tie: DataFrame length, MultiIndex order and names, column set, _period, and every additional target column against the model's by-name evaluation at the row (exact)",
          "pandas MultiIndex.from_product order is taken as documented (period-major).", "Lean 4 proof + exact differential correspondence"),
  "C14": ("stored values reproduced at nodes after the discrete selection (any number of continuous axes), affine in each coordinate for a fixed cell, boundary cell continued outside a linear grid, axes guard (C14_*); tie: get_function_representation with generated SpaceInfo (random feasibility masks, lin/log grids) against the Lean model `functionRepresentation` (exact / 1e-9 for log grids) plus the clauses evaluated on the implementation alone",
          "JAX index wrap-around for infeasible combinations (-1) is outside the property.", "Lean 4 proof + differential correspondence"),
- "C15": ("integer coordinates return entries (any rank), blend recursion with weights summing to one, affine per axis incl. extrapolation, boundary cells; linear grids: node coordinate, strict monotonicity, round trip for every value (exact rationals); log grids over the reals: cell bounds, coordinate in cell, node coordinate, round trip (C15_*); tie: map_coordinates rank 1-4 incl. integer inputs (exact), get_coordinate of both grid classes",
-         "The corner-product sum of the code is represented by its recursive form; floor/clip/astype semantics as documented; Float instance of the log formulas carries no theorem.", "Lean 4 proof (Rat and Real) + differential correspondence"),
+ "C15": ("integer coordinates return entries (any rank), blend recursion with weights summing to one, affine per axis incl. extrapolation, boundary cells; linear grids: node coordinate, strict monotonicity, round trip for every value (exact rationals); log grids over the reals: cell bounds, coordinate in cell, node coordinate, round trip (C15_*); tie: map_coordinates rank 1-4 incl. integer inputs (exact), get_coordinate of both grid classes incl. values within 1e-6 relative of log-grid nodes on grids of up to 400 nodes",
+         "The corner-product sum of the code (`interpCorners`: sum over the 2^n corners of products of one-dimensional weights) is proved equal to the recursive form (C15_corner_eq_rec); floor/clip/astype semantics as documented; Float instance of the log formulas carries no theorem.", "Lean 4 proof (Rat and Real) + differential correspondence"),
  "C16": ("acceptance decision logic over Python values incl. nan/inf/bool semantics; accepted linear grids have n points, first = start, last = stop, equal spacing, strictly increasing; log grid nodes over the reals; discrete grids accepted iff codes are numerically 0,1,2,... (C16_*); tie: constructors on generated values, materialisation oracle on every accepted grid",
          "Float range/representability (e.g. 1e40 in float32) is outside exact arithmetic; the harness runs with x64.", "Lean 4 proof of decision logic and exact materialisation + differential correspondence"),
  "C17": ("rows = exactly the filter-passing combinations of the row-major product, duplicate-free; feasible states; indexer = rank or not-found; segments group rows by state rank; dense variables as full grids (C17_*); tie: create_state_choice_space on generated specifications, every period, jit_filter on/off, compared with `mkSpace` (exact equality of rows, indexer, segments, dense grids, SpaceInfo)",
          "", "Lean 4 proof + exact differential correspondence"),
- "C18": ("PARTIAL. argmax: position is an unmasked maximiser, the first one, (0, -inf) when all masked; segment_argmax: a row of the segment attaining the segment max; discrete problem = max over all choice combinations (C18_*); tie: argmax/segment_argmax/get_solve_discrete_problem on generated arrays with ties, eager and jitted. The 'produced inside the same JIT computation' clause is searched by a fused-producer stream only",
+ "C18": ("PARTIAL. argmax: position is an unmasked maximiser, the first one, (0, -inf) when all masked; segment_argmax: a row of the segment attaining the segment max; discrete problem = max over all choice combinations (C18_*); tie: argmax/segment_argmax/get_solve_discrete_problem on generated arrays with exact ties and near ties (1e-6 relative), eager and jitted. The 'produced inside the same JIT computation' clause is searched by a fused-producer stream only",
          "XLA double evaluation with different rounding cannot be exhibited by a model in which an element has one value.", "Lean 4 proof + differential correspondence + fused-producer search"),
- "C19": ("productmap entry theorem (axes in listed order, any signature positions), vmap_1d pairing, spacemap axis placement; wrappers reject positional/unexpected/missing/duplicated/wrong-count arguments (C19_*); tie: generated signatures with all parameter kinds, all mapped subsets/orders, scalar/tuple/dict outputs against nested Python loops (oracle) and the Lean dispatcher model",
+ "C19": ("productmap entry theorem (axes in listed order, any signature positions), vmap_1d pairing, spacemap axis placement; wrappers reject positional/unexpected/missing/duplicated/wrong-count arguments (C19_*); tie: generated signatures with all parameter kinds, all mapped subsets/orders, scalar/tuple/dict outputs with scalar and array-valued leaves against nested Python loops (oracle) and the Lean dispatcher model",
          "jax.vmap taken with documented semantics; variadics not generated.", "Lean 4 proof + nested-loop oracle + differential correspondence"),
  "C20": ("over the reals: stable form = s*log(sum exp(v/s)), layout irrelevance, bounds, shift, limit s->0+, and the arithmetic no-overflow argument (C20_*); tie (tolerance): both private kernels against the Float instance of the same definitions, plus the clauses evaluated on the implementation (finiteness up to 1e6)",
          "IEEE overflow/underflow is outside the model; Float is opaque to the Lean kernel (the Float instance carries no theorem).", "Lean 4 proof over the reals (Mathlib) + tolerance differential correspondence"),
